@@ -372,6 +372,25 @@ func exec(planJSON []byte, run *core.Run) {
 			run.Violate(comp+".Encapsulate", "size-differs-from-advertised", "ct %d (advertised %d), ss %d (advertised %d)", len(ct), s.CiphertextSize(), len(ss), s.SharedKeySize())
 			return
 		}
+		// the initiator frames the ciphertext: it appends to the slice it was given (a tag, a
+		// trailer) and later overwrites the frame. Neither may reach the shared secret it holds.
+		ss0 := append([]byte{}, ss...)
+		for j, full := len(ct), ct[:cap(ct)]; j < len(full); j++ {
+			full[j] ^= 0xa5
+		}
+		for j, full := len(ss), ss[:cap(ss)]; j < len(full); j++ {
+			full[j] ^= 0x5a
+		}
+		run.Fault("aliasing:returned-slices-appended-to")
+		ctKeep := append([]byte{}, ct...)
+		if !bytes.Equal(ss, ss0) {
+			run.Violate(comp+".Encapsulate", "returned-values-share-memory", "appending to the returned ciphertext (within its capacity %d > length %d) changed the returned shared secret", cap(ct), len(ct))
+			return
+		}
+		if !bytes.Equal(ct, ctKeep) {
+			run.Violate(comp+".Encapsulate", "returned-values-share-memory", "appending to the returned shared secret changed the returned ciphertext")
+			return
+		}
 		run.Event("initiator", "encapsulate", i, ct)
 		run.Tick(1)
 		if se.Restart {
